@@ -37,6 +37,44 @@ class C13(InterpProp):
             kn.cflags = 0
         return kn
 
+    @staticmethod
+    def watchdog(rnd):
+        """a state whose invariant says that it is not stayed in (or not idle) for too long: passing time alone makes
+        it false, at a step that has nothing else to do as well"""
+        from sismic.model import BasicState, CompoundState, Statechart, Transition
+        d = rnd.randint(1, 6)
+        kind = rnd.choice(['after', 'idle'])
+        sc = Statechart('watchdog', preamble='x = 0\ny = 0\nseen = -1')
+        sc.add_state(CompoundState('root', initial='armed'), None)
+        a = BasicState('armed')
+        a.invariants.append('not %s(%d)' % (kind, d))
+        if rnd.random() < 0.5:
+            a.invariants.append('%s(0)' % rnd.choice(['after', 'idle']))
+        sc.add_state(a, 'root')
+        sc.add_state(BasicState('safe'), 'root')
+        sc.add_transition(Transition('armed', None, event='e', action='x += 1'))        # (resets idle, not after)
+        sc.add_transition(Transition('armed', 'armed', event='f', action='y += 1'))      # (re-entry: resets both)
+        sc.add_transition(Transition('armed', 'safe', event='g'))
+        sc.add_transition(Transition('safe', 'armed', event='g'))
+        ops, t = [['exec', 0, 0]], 0
+        for _ in range(rnd.randint(4, 12)):
+            if rnd.random() < 0.35:
+                ops.append(['queue', 0, {'ev': rnd.choice(['e', 'e', 'f', 'g', 'zz']), 'data': []}])
+            else:
+                t += rnd.choice([0, 1, 1, 2, 3])
+                ops.append(['exec', 0, t])
+        return sc, ops
+
+    def gen_case(self, rnd, tier):
+        if rnd.random() < 0.05:
+            from ..encode import ChartEnc
+            from ..framework import Case
+            sc, ops1 = self.watchdog(rnd)
+            enc = ChartEnc(sc)
+            payload = {'kind': 'interp', 'charts': [enc.json], 'ops': [['create', 0, self.ignore_contract, [], 0]] + ops1}
+            return Case(payload, {'charts': [sc]}, model_ok=enc.supported)
+        return super().gen_case(rnd, tier)
+
     def make_ops(self, rnd, knobs, sc):
         ops = gen.gen_ops(rnd, knobs, self.n_ops)
         t = 0
@@ -106,6 +144,12 @@ class C13(InterpProp):
         m = re.fullmatch(r'(after|idle)\((\d+)\)', src_text or '')
         return (m.group(1), int(m.group(2))) if m else None
 
+    @staticmethod
+    def time_cond(src_text):
+        """a condition that is a time predicate or the negation of one: (kind, d, negated)"""
+        m = re.fullmatch(r'(not )?(after|idle)\((\d+)\)', src_text or '')
+        return (m.group(2), int(m.group(3)), bool(m.group(1))) if m else None
+
     def check_selection(self, info, res):
         r, gh, sc, trans = info['r'], info['ghost'], info['sc'], info['trans']
         if not gh.initialized or gh.final or r['outcome'] == 'error':
@@ -132,6 +176,26 @@ class C13(InterpProp):
                                   'its own last entry / last transition the documented semantics fires %s'
                                   % (info['k'], fired, t, exps[0]))
 
+    def check_final_invariants(self, info, res, entered, idle):
+        """at the end of every macro step, also an empty one, the invariants of the active states hold *at the time of
+        that step*: one that is a time predicate and is false then does not go unnoticed"""
+        r, sc = info['r'], info['sc']
+        if r['outcome'] == 'error' or res.violations:
+            return
+        t = info['clock']
+        done = set((e[2][1], e[3]) for e in r['eff'] if e[0] == 'cond' and e[1] == 'inv' and e[2][0] == 's')
+        for n in info['slot1']['config']:
+            for i, c in enumerate(sc.state_for(n).invariants):
+                tp = self.time_cond(c)
+                ref = (entered if tp and tp[0] == 'after' else idle).get(n) if tp else None
+                if tp is None or ref is None:
+                    continue
+                if ((t - tp[1] >= ref) != tp[2]) is False and (n, i) not in done:
+                    res.violations.append('step %d: %s is active at the end of the step at time %d and its invariant %r is false '
+                                          '(%s at %d), but it was not evaluated and nothing was raised'
+                                          % (info['k'], n, t, c, 'last entered' if tp[0] == 'after' else 'last entered / fired', ref))
+                    return
+
     # ---- time predicates in contracts, replayed along the log of the step ----------------------------
     def check_conds(self, info, res):
         r, gh, sc, trans = info['r'], info['ghost'], info['sc'], info['trans']
@@ -150,19 +214,30 @@ class C13(InterpProp):
                 idle[e[1]] = t
             elif e[0] == 'action':
                 firing = e[1]
-            elif e[0] == 'cond' and e[5] is not None:
+            elif e[0] == 'cond':
                 obj = trans[e[2][1]] if e[2][0] == 't' else sc.state_for(e[2][1])
                 lst = {'pre': obj.preconditions, 'post': obj.postconditions, 'inv': obj.invariants}[e[1]]
-                tp = self.time_pred(lst[e[3]])
+                tp = self.time_cond(lst[e[3]])
                 if tp is None:
                     continue
                 owner = obj.source if e[2][0] == 't' else obj.name
                 ref = (entered if tp[0] == 'after' else idle).get(owner)
                 if ref is None:
                     continue
+                if e[5] is None and e[1] == 'pre':
+                    continue        # (preconditions are not given after / idle)
+                if e[5] is None:
+                    # the owner was entered: its time predicates have a value
+                    res.violations.append('step %d: %s condition %s of %s raised instead of answering at time %d; %s was %s at %d'
+                                          % (info['k'], e[1], lst[e[3]], e[2], t, owner,
+                                             'last entered' if tp[0] == 'after' else 'last entered / fired', ref))
+                    return
                 res.features.add('cond-' + tp[0])
-                if (t - tp[1] >= ref) != e[5]:
+                if ((t - tp[1] >= ref) != tp[2]) != e[5]:
                     res.violations.append('step %d: %s condition %s of %s evaluated %s at time %d; %s was %s at %d'
                                           % (info['k'], e[1], lst[e[3]], e[2], e[5], t, owner,
                                              'last entered' if tp[0] == 'after' else 'last entered / fired', ref))
                     return
+        if firing is not None:
+            idle[trans[firing].source] = t
+        self.check_final_invariants(info, res, entered, idle)
